@@ -1,10 +1,11 @@
 SPECIFICATION Spec
 CONSTANTS
-  Profile = "marker"
-  MaxW = 2
-  MaxWc = 2
+  Profile = "lex1"
+  MaxW = 1
+  MaxWc = 1
   MaxDepth = 1
-  Tights = {FALSE}
+  Tights = {TRUE}
   EmitOpen = FALSE
+INVARIANT WellNested
 INVARIANT Emit
 CHECK_DEADLOCK FALSE
